@@ -160,10 +160,10 @@ func readCorpus(prop string) []caseRec {
 }
 
 // RunLean pipes lines to bvdrv and returns one answer per line.
-func RunLean(lines []string) ([]string, error) {
+func RunLean(pid string, lines []string) ([]string, error) {
 	drv := os.Getenv("VERIF_BVDRV")
 	if drv == "" {
-		drv = filepath.Join(verifDir(), "lean/.lake/build/bin/bvdrv")
+		drv = filepath.Join(verifDir(), "lean/.lake/build/bin/drv_"+strings.ToLower(pid))
 	}
 	cmd := exec.Command(drv)
 	stdin, err := cmd.StdinPipe()
@@ -229,7 +229,7 @@ func Main(p Property) {
 		goOut[i] = safeExec(p, c.line)
 	}
 	tExec := time.Since(start)
-	leanOut, err := RunLean(lines)
+	leanOut, err := RunLean(p.ID(), lines)
 	if err != nil {
 		fmt.Fprintf(os.Stderr, "harness: %v\n", err)
 		// A driver crash is a broken correspondence on the first unanswered line.
